@@ -25,6 +25,9 @@ HOSTILE = [
     "any(uint32(0) == 0 for uint32 in [r.tags.pop])", "r.__class__", "r.s.__len__()", "(lambda: 1)()", "str.upper('a')", "fields.__self__", "names(r).pop()", "r.tags.append('x')", "getattr(r, 's')", "eval('1')", "__import__('os')",
     "open('/etc/passwd')", "type(r)", "upper.__globals__", "r._desc.recordType()", "r.tags.clear() or True", "any(r.tags.pop() for x in [1])", "str(r.tags.append('y'))", "(r.tags.append)('z')", "[r.tags.append][0]('w')",
     "__class__", "__builtins__", "__dict__", "print(1)", "r.tags.sort()", "net.ipaddress.__init__('x')", "upper(s=r.tags.append('k'))", "r.tags.__setitem__(0, 'q')", "any(x.append('n') for x in [r.tags])", "len(r.tags)", "setattr(r, 'n', 2)", "r.n.__add__(1)",
+    # a generator variable named like a double-underscore attribute does not make that attribute readable
+    "any(r.__class__ for __class__ in [0])", "any(str(r.__init__.__globals__) != '' for __init__ in [0] for __globals__ in [0])", "any(True for __dict__ in [1]) and r.tags.__dict__", "any(r.s.__class__ == 1 for __class__ in [1])",
+    "all(upper.__globals__ for __globals__ in [0])", "any(__class__ == 0 for __class__ in [0]) and r.__class__",
     "repr.__self__", "str.__subclasses__()", "all.__call__([])", "any.__self__.eval('1')", "lower.__code__", "field_equals.__globals__['__builtins__']", "r.s.format(r)", "'{0.__class__}'.format(r)",
 ]
 # these only look hostile: the callee that is invoked is the whitelisted field type of that name, never the generator variable (no refusal is demanded, only: nothing
@@ -274,7 +277,7 @@ def build(tier="quick", seed=0):
                     return False, f"{e!r}: evaluated to {out[1]!r} instead of being refused"
                 return True
 
-            return prove_paths(name, th, judge, lambda m, p: {"expr": e, "genvar": None})
+            return prove_paths(name, th, judge, lambda m, p: {"expr": e, "genvar": None, "refuse": ".__" in e})  # (a double-underscore attribute access must be refused as such)
 
         pack.add(Obligation(name, run, replay=lambda w: {"call": "c09_hostile", "args": w}, functions=FU))
 
